@@ -260,6 +260,12 @@ def model_case95(case):
         return [95, [2, wire_cfg(case['cfg']), len(rdb_bytes()), case['fs']]]
     if case['kind'] == 'budget':
         return [95, [3, wire_cfg(case['cfg'])]]
+    if case['kind'] == 'session' and 'cfgs' in case:       # several store objects in one history
+        from fixtures.s3fake import LISTING_EMPTY, LISTING_FULL
+        return [97, [[wire_cfg(c) for c in case['cfgs']],
+                     [[o['store'], [o['bucket'], o['state'], pls[o['payload']]['segs'],
+                                    len(LISTING_FULL) if o['state'] == 0 else len(LISTING_EMPTY), o['fs'], o['fsb']]]
+                      for o in case['ops']]]]
     if case['kind'] == 'session':
         from fixtures.s3fake import LISTING_EMPTY, LISTING_FULL
         return [92, [wire_cfg(case['cfg']),
@@ -387,12 +393,14 @@ def impl_session(case, read_timeout):
     fake.max_wait = read_timeout + 2.0
     fake.arm([], [], 'full', pls[0]['data'])
     out = []
+    cfgs = case.get('cfgs') or [case['cfg']]
     try:
-        store = S3ChunkStore(fake.url, timeout=(2, read_timeout), **retries_kw(case['cfg']))
+        objs = [S3ChunkStore(fake.url, timeout=(2, read_timeout), **retries_kw(c)) for c in cfgs]
     except Exception as e:
         return [(classify_exc(e), '', [], None)]
     norm = {n.replace('_', '-'): i for i, n in enumerate(BUCKET_NAMES)}
     for o in case['ops']:
+        store = objs[o.get('store', 0)]
         p = pls[o['payload']]
         a = p['array']
         slices = tuple(slice(0, n) for n in a.shape)
@@ -427,9 +435,15 @@ def session_signature(case, k, mout, impl_cls, want_cls, what):
     same = [j for j in range(k) if case['ops'][j]['bucket'] == o['bucket']]
     coarse = {OK: 'ok', NOTFOUND: 'missing-chunk'}
     before = sorted({coarse.get(mout[j][4][0], 'failed') for j in same})
-    return 'kind=session;call=%s;faults=%s;listing=%s;bucket=%s;evidence=%d;same_bucket_before=%s;other_buckets_before=%d;what=%s;impl=%s;want=%s' % (
+    multi = ''
+    if 'cfgs' in case:       # several store objects: what ANOTHER object saw in this bucket before
+        other = sorted({coarse.get(mout[j][4][0], 'failed') for j in same if case['ops'][j]['store'] != o['store']})
+        same = [j for j in same if case['ops'][j]['store'] == o['store']]
+        before = sorted({coarse.get(mout[j][4][0], 'failed') for j in same})
+        multi = ';stores=%d;same_bucket_on_another_store_before=%s' % (len(case['cfgs']), '+'.join(other) or 'none')
+    return 'kind=session;call=%s;faults=%s;listing=%s;bucket=%s;evidence=%d;same_bucket_before=%s;other_buckets_before=%d%s;what=%s;impl=%s;want=%s' % (
         'first' if k == 0 else 'later', '+'.join(kinds) or 'none', listing, ('full', 'empty', 'missing')[o['state']],
-        int(mout[k][5]), '+'.join(before) or 'none', int(len(same) < k), what,
+        int(mout[k][5]), '+'.join(before) or 'none', int(len(same) < k), multi, what,
         CLASS_NAMES.get(impl_cls, impl_cls), CLASS_NAMES.get(want_cls, want_cls))
 
 
@@ -824,6 +838,34 @@ def session_cases(ctx):
             fsb = [rand_sym(pls[pi], listing=True) for _ in range(rng.choice((0, 0, 0, 1, 2, 3)))]
             ops.append(dict(bucket=b, state=state[b], payload=pi, fs=fs, fsb=fsb))
         cases.append(dict(kind='session', cfg=cfg, ops=ops))
+    # (c) SEVERAL store objects in one history (evidence is per bucket AND per store object): all histories of 2 calls
+    #     (the first on object 0) over 5 call shapes x 2 buckets x 2 objects, random ones of 3-6 calls over 3 objects
+    #     constructed with different `retries` arguments
+    def shapes():
+        return [dict(state=0, fs=[[0, 404]], fsb=[]), dict(state=1, fs=[[0, 404]], fsb=[]),
+                dict(state=2, fs=[[0, 404]], fsb=[]), dict(state=rng.choice((0, 1)), fs=[], fsb=[]),
+                dict(state=0, fs=[[0, 404]], fsb=[[0, 503], [0, 503]])]
+    two = [dict(o, bucket=b, store=k, payload=rng.randrange(len(pls))) for k in (0, 1) for b in (0, 1) for o in shapes()]
+    for o1 in two:
+        if o1['store'] != 0:
+            continue
+        for o2 in two:
+            cases.append(dict(kind='session', cfg=list(cfg1), cfgs=[list(cfg1), list(cfg1)], ops=[dict(o1), dict(o2)]))
+    for _ in range(ctx.scale(70, 1500)):
+        cfgs = [list(cfg1), list(rng.choice(USER_FORMS)), [10, 1, rng.choice((0, 1, 2)), rng.choice((0, 1, 2)), G]]
+        state = [rng.choice((0, 0, 1, 2)) for _ in BUCKET_NAMES]
+        ops = []
+        for _ in range(rng.randint(3, 6)):
+            b = rng.choice((0, 0, 1))
+            if rng.random() < 0.25:
+                state[b] = rng.choice((0, 1, 2))
+            pi = rng.randrange(len(pls))
+            fs = [rand_sym(pls[pi])] if rng.random() < 0.25 else []
+            if rng.random() < 0.75:
+                fs.append([0, 404])
+            fsb = [rand_sym(pls[pi], listing=True) for _ in range(rng.choice((0, 0, 0, 1, 2)))]
+            ops.append(dict(bucket=b, store=rng.randrange(3), state=state[b], payload=pi, fs=fs, fsb=fsb))
+        cases.append(dict(kind='session', cfg=cfgs[0], cfgs=cfgs, ops=ops))
     return cases
 
 
@@ -1295,6 +1337,16 @@ def compare_site(ctx, case, mout, read_timeout=0.5, confirm=True):
             problems.append(('property', 'listing_or_method', icls, scls))
         if mcls != scls and guarded and not problems:
             problems.append(('property', 'model_vs_spec', mcls, scls))
+        auto = case.get('_auto')
+        if auto is not None and not _state.get('stale'):
+            # the counting automaton of requests that are not streamed (theorem: = the model of the loop, for all inputs)
+            acls, an = (OK if auto[1][0][0] == 0 else auto[1][0][0]), auto[1][1]
+            if site == 'complete':
+                acls = OK if auto[1][0][0] == 0 else (10 if auto[1][0][0] in (NOTFOUND, GLITCH) else auto[1][0][0])
+            if (icls, len(log)) != (acls, an) and not problems:
+                problems.append(('tie', 'unstreamed_automaton', icls, acls))
+            if icls == OK and site == 'complete' and auto[1][0] != [0, len(pls[case['payload']]['data'])]:
+                problems.append(('property', 'answer_without_its_whole_body_accepted', icls, acls))
     if problems and confirm and read_timeout < 2.0:
         return compare_site(ctx, case, mout, read_timeout=2.5, confirm=False)
     ctx.traces_validated += 1
@@ -1360,6 +1412,24 @@ def site_cases(ctx):
             else:
                 fs.append([rng.choice((1, 2)), rng.choice(offsets(pls[pi])[:-1])])
         cases.append(dict(kind='site', site=site, cfg=cfg, payload=pi, fs=fs, empty=empty))
+    # answers WITH a body to requests that are not streamed (theorem C09_unstreamed_request: the counting automaton):
+    # all scripts of length <= 2 over {503, reset before the header, close before the header, body cut early / late,
+    # body reset, 404, 403} + the shapes in which what the adapter retried is forgotten, for `put` and `complete`
+    for site in ('put', 'complete'):
+        for read, status in ((1, 1), (0, 1), (2, 1), (1, 0)) if not thorough else tuple(itertools.product((0, 1, 2), repeat=2)):
+            pi = rng.choice((0, 2, 3))
+            ks = offsets(pls[pi])
+            bs = [[0, 503], [4, 0], [4, 2], [1, ks[0]], [1, ks[-1]], [2, ks[2]], [0, 404], [0, 403]]
+            scripts = [list(x) for n in (1, 2) for x in itertools.product(bs, repeat=n)]
+            cut = [1, rng.choice(ks)]
+            scripts += [[[4, 0], cut, [4, 0]], [[0, 503], cut, [0, 503]], [[0, 503], cut, [0, 503], cut, [0, 503]],
+                        [cut, [4, 0], cut], [[4, 0], [0, 503], cut, [4, 0], [0, 503]], [cut, cut, [0, 503]],
+                        [[0, 503], [4, 2], cut, [0, 502], [0, 403]]]
+            for fs in scripts:
+                if len(fs) == 2 and not thorough and rng.random() < 0.4:
+                    continue
+                cases.append(dict(kind='site', site=site, cfg=[10, 1, read, status, G], payload=pi,
+                                  fs=[list(x) for x in fs], empty=False))
     return cases
 
 
@@ -1627,6 +1697,11 @@ def safe_model(ctx, cases):
     if have:
         for i, o in zip(have, ctx.model([mcs[i] for i in have])):
             out[i] = o
+    body = [c for c in cases if c['kind'] == 'site' and c['site'] != 'mark' and not c.get('empty', True)]
+    if body and '96' not in left and ctx.model_ok and not _state.get('stale'):
+        _, pls = env()
+        for c, o in zip(body, ctx.model([[96, [wire_cfg(c['cfg']), len(pls[c['payload']]['data']), c['fs']]] for c in body])):
+            c['_auto'] = o
     for i, c in enumerate(cases):
         if out[i] is None:
             out[i] = py_mout(c)
@@ -1801,10 +1876,16 @@ def run_cases(ctx, cases):
             ctx.count('kind=session')
             ctx.count('session_calls', len(c['ops']))
             ctx.count('session_len=%d' % len(c['ops']))
+            ctx.count('session_store_objects=%d' % len(c.get('cfgs', [0])))
             for k, o in enumerate(c['ops']):
+                if 'cfgs' in c and o['fs'][-1:] == [[0, 404]] and not mouts[i][k][5] and any(
+                        c['ops'][j]['bucket'] == o['bucket'] and c['ops'][j]['store'] != o['store']
+                        and mouts[i][j][4][0] == NOTFOUND for j in range(k)):
+                    ctx.count('session_404_in_bucket_that_only_another_store_object_verified')
                 ctx.count('session_result=' + CLASS_NAMES.get(mouts[i][k][4][0], '?'))
                 if k and mouts[i][k][4][0] == UNAVAIL and any(
-                        c['ops'][j]['bucket'] == o['bucket'] and mouts[i][j][4][0] in (UNAVAIL, GLITCH, AUTH)
+                        c['ops'][j]['bucket'] == o['bucket'] and c['ops'][j].get('store', 0) == o.get('store', 0)
+                        and mouts[i][j][4][0] in (UNAVAIL, GLITCH, AUTH)
                         and c['ops'][j]['fs'][-1:] == [[0, 404]] for j in range(k)):
                     ctx.count('session_repeated_404_in_unverified_bucket')
                 if mouts[i][k][5] and o['fs'][-1:] == [[0, 404]]:
@@ -1847,6 +1928,14 @@ def run_cases(ctx, cases):
             ctx.count('kind=site')
             ctx.count('site=%s;answer=%s' % (c['site'], 'empty' if c.get('empty', True) else 'body'))
             ctx.count('site_len=%d' % len(c['fs']))
+            if c.get('_auto') is not None:
+                ctx.count('unstreamed_with_body')
+                if c['_auto'][1] != c['_auto'][2]:
+                    ctx.count('unstreamed_adapter_retries_forgotten_visible')
+                if c['_auto'][0] != c['_auto'][1]:
+                    ctx.disagree('kind=site;what=extracted_model_differs_from_extracted_automaton', c, None, None,
+                                 'wire 96: request cfg PListing differs from spec_unstreamed (theorem C09_unstreamed_request)',
+                                 kind='tie')
             continue
         nontrivial = bool(c.get('fs')) or c['kind'] == 'token'
         ctx.note_case(canon(c), nontrivial=nontrivial,
@@ -1882,7 +1971,7 @@ def run(ctx):
             _state['stale'] = True
     env()
     _state['left_out'] = left_out_wires()
-    if _state['left_out'] & {'9', '91', '92', '93', '94', '95'}:
+    if _state['left_out'] & {'9', '91', '92', '93', '94', '95', '96', '97'}:
         _state['stale'] = True
     # known-finding witnesses first (fixed ones must pass, open ones must still fail)
     for f in ctx.findings:
@@ -1945,7 +2034,7 @@ def replay(ctx, doc):
     if not case or 'kind' not in case:
         return
     _state['left_out'] = left_out_wires()
-    if _state['left_out'] & {'9', '91', '92', '93', '94', '95'}:
+    if _state['left_out'] & {'9', '91', '92', '93', '94', '95', '96', '97'}:
         _state['stale'] = True
     if ctx.model_ok and not _state.get('stale'):
         env()
